@@ -61,6 +61,9 @@ class Coordinator(object):
         if name == "MSet":
             rep = self.call(p, dict(c="set", k=a[1], attr="lab", v=a[2]))
             return dict(e="Set", p=p, o=a[1], v=a[2], rv=rep["rv"]) if rep else dict(e="ProcessDied", p=p)
+        if name == "MBadSet":
+            rep = self.call(p, dict(c="badset", k=a[1]))
+            return dict(e="BadSet", p=p, o=a[1], rv=rep["rv"]) if rep else dict(e="ProcessDied", p=p)
         if name == "MGet":
             rep = self.call(p, dict(c="get", k=a[1]))
             if rep is None:
